@@ -1516,3 +1516,102 @@ Proof.
   - destruct (prev <? r); [|auto]. destruct (all || (r =? ms)); [|auto]. cbn [label obs]. intro Hin.
     apply set_obs_keeps; [intro E; subst k; cbn in H; lia | exact Hin].
 Qed.
+
+(* ------------------------------------------------------------------ *)
+(* pending levels never reach beyond the level where the job pauses/stops next *)
+(* ------------------------------------------------------------------ *)
+Lemma pending_bounded cfg h st : wf_config cfg = true -> legal_hist cfg init h -> run cfg init h = Ok st ->
+  forall t p, In (t, p) (pend (srch st)) ->
+    exists rec, find t (trials st) = Some rec /\ hi rec < p /\
+      match sty cfg with
+      | Promotion => exists ms rf, running rec = Some (ms, rf) /\ p <= ms
+      | Stopping => forall b m, task_bracket rec = Some b -> In m (skipn b (rung_levels cfg)) \/ m = max_t cfg ->
+                                hi rec < m -> p <= m
+      end.
+Proof.
+  intros WF HL HR t p Hin. pose proof (legal_run_inv _ _ _ WF HL HR) as [_ [_ Hall]]. specialize (Hall t).
+  destruct (find t (trials st)) as [rec|]; [|destruct Hall as [_ [B _]]; destruct (B p Hin)].
+  exists rec. split; [reflexivity|]. destruct (g_pend _ _ _ _ _ Hall p Hin) as [Hd Hlo]. split; [exact Hlo|].
+  pose proof (g_pend_ub _ _ _ _ _ Hall p) as UB. unfold MS in UB. destruct (sty cfg) eqn:HS.
+  - intros b m Hb Hm Hlt. apply (UB m Hin); [exists b; auto | exact Hlt].
+  - destruct (g_run _ _ _ _ _ Hall Hd) as [_ Hrun]. destruct (Hrun HS) as [ms [rf [E1 [E2 _]]]].
+    exists ms, rf. split; [exact E1|]. apply (UB ms Hin); [exists rf; exact E1 | exact E2].
+Qed.
+
+(* ------------------------------------------------------------------ *)
+(* the data the surrogate is fitted to                                  *)
+(* ------------------------------------------------------------------ *)
+Definition choose_ok (choose : list ((Z * Z) * Q) -> nat -> list ((Z * Z) * Q)) : Prop :=
+  forall l n, (n < length l)%nat -> incl (choose l n) l /\ length (choose l n) = n /\
+                                     (NoDup (map fst l) -> NoDup (map fst (choose l n))).
+
+Lemma check_trial_ids_spec cfg s : check_trial_ids cfg s = true <-> forall t, In t (state_trials s) -> In t cfg.
+Proof. unfold check_trial_ids. rewrite forallb_forall. split; intros H t Ht; [apply mem_Z_In | apply mem_Z_In]; auto. Qed.
+
+Lemma cap_state_spec choose cap cfg s : choose_ok choose -> check_trial_ids cfg s = true ->
+  exists s', cap_state choose cap cfg s = Some (cfg, s') /\
+    incl (obs s') (obs s) /\ length (obs s') = Nat.min (length (obs s)) cap /\
+    pend s' = pend s /\ failed s' = failed s /\
+    ((length (obs s) <= cap)%nat -> obs s' = obs s) /\ (obs_nodup s -> obs_nodup s').
+Proof.
+  intros Hch Hck. unfold cap_state.
+  set (o' := if Nat.leb (length (obs s)) cap then obs s else choose (obs s) cap).
+  assert (Ho : incl o' (obs s) /\ length o' = Nat.min (length (obs s)) cap /\
+               ((length (obs s) <= cap)%nat -> o' = obs s) /\ (obs_nodup s -> NoDup (map fst o'))).
+  { subst o'. destruct (Nat.leb (length (obs s)) cap) eqn:E.
+    - apply Nat.leb_le in E. split; [apply incl_refl|]. split; [lia|]. split; auto.
+    - apply Nat.leb_gt in E. destruct (Hch (obs s) cap E) as [A [B C]]. split; [exact A|]. split; [lia|]. split; [lia | exact C]. }
+  destruct Ho as [A [B [C D]]].
+  assert (Hck' : check_trial_ids cfg {| obs := o'; pend := pend s; failed := failed s |} = true).
+  { apply check_trial_ids_spec. intros t Ht. apply (proj1 (check_trial_ids_spec cfg s) Hck). unfold state_trials in *. cbn [obs pend failed] in Ht.
+    apply in_app_or in Ht as [Ht|Ht]; apply in_or_app; [left | right; exact Ht].
+    apply in_map_iff in Ht as [e [E1 E2]]. apply in_map_iff. exists e. split; [exact E1 | apply A; exact E2]. }
+  rewrite Hck'. eexists. split; [reflexivity|]. cbn [obs pend failed]. repeat split; auto.
+Qed.
+
+Lemma fitted_rows_spec {C : Type} (config_of : Z -> C) s :
+  length (fitted_rows config_of s) = length (obs s) /\
+  (forall t r c, In ((t, r), c) (obs s) -> In (config_of t, r, c) (fitted_rows config_of s)) /\
+  (forall x, In x (fitted_rows config_of s) -> exists t r c, In ((t, r), c) (obs s) /\ x = (config_of t, r, c)).
+Proof.
+  unfold fitted_rows. split; [apply map_length|]. split.
+  - intros t r c H. apply in_map_iff. exists ((t, r), c). split; [reflexivity | exact H].
+  - intros x H. apply in_map_iff in H as [[[t r] c] [E H]]. exists t, r, c. split; [exact H | symmetry; exact E].
+Qed.
+
+Lemma find_Some_keys t l rec : find t l = Some rec -> In t (map fst l).
+Proof.
+  induction l as [|[k v] l IH]; cbn; [discriminate|]. destruct (k =? t) eqn:E; [intros _; left; lia | intro H; right; auto].
+Qed.
+
+(* ------------------------------------------------------------------ *)
+(* exclusion of failed / pending configurations                          *)
+(* ------------------------------------------------------------------ *)
+Lemma failed_excluded b s t : In t (failed s) -> In t (exclusion_trials b s).
+Proof. intro H. unfold exclusion_trials. apply in_or_app. right. apply in_or_app. left. exact H. Qed.
+Lemma pending_excluded b s t r : In (t, r) (pend s) -> In t (exclusion_trials b s).
+Proof. intro H. unfold exclusion_trials. apply in_or_app. left. apply (in_map fst _ _ H). Qed.
+Lemma observed_excluded s t r c : In ((t, r), c) (obs s) -> In t (exclusion_trials false s).
+Proof.
+  intro H. unfold exclusion_trials, observed_trials. apply in_or_app. right. apply in_or_app. right.
+  apply in_map_iff. exists ((t, r), c). auto.
+Qed.
+Lemma draw_restricted_spec {C : Type} (eqb : C -> C -> bool) rc excl : forall draws c,
+  draw_restricted eqb rc excl draws = Some c -> In c rc /\ existsb (eqb c) excl = false.
+Proof.
+  induction draws as [|pos rest IH]; intros c H; cbn in H; [discriminate|].
+  destruct (nth_error rc pos) as [c0|] eqn:E; [|auto]. destruct (existsb (eqb c0) excl) eqn:EX; [auto|].
+  inversion H; subst. split; [eapply nth_error_In; eauto | exact EX].
+Qed.
+(* the configuration drawn from restrict_configurations is not the configuration of a failed or pending
+   trial, whatever allow_duplicates is *)
+Lemma restricted_draw_avoids_failed {C : Type} (eqb : C -> C -> bool) (config_of : Z -> C) rc b s draws c t :
+  (forall x, eqb x x = true) ->
+  draw_restricted eqb rc (map config_of (exclusion_trials b s)) draws = Some c ->
+  In t (failed s) \/ (exists r, In (t, r) (pend s)) -> c <> config_of t.
+Proof.
+  intros Hrefl Hd Ht Heq. destruct (draw_restricted_spec eqb rc _ draws c Hd) as [_ HX].
+  assert (Hin : In t (exclusion_trials b s)) by (destruct Ht as [H|[r H]]; [apply failed_excluded; exact H | eapply pending_excluded; exact H]).
+  assert (existsb (eqb c) (map config_of (exclusion_trials b s)) = true); [|congruence].
+  apply existsb_exists. exists (config_of t). split; [apply in_map; exact Hin | rewrite Heq; apply Hrefl].
+Qed.
